@@ -91,3 +91,4 @@ func verifGuards(on bool)        {}
 func verifStep() int             { return 0 }
 func verifYield()                { runtime.Gosched() }
 func verifAwaitAfterFunc(id int) {}
+func verifAtomic(f func())      { f() }
